@@ -4,6 +4,8 @@
 package zvfixture
 
 import (
+	"crypto/ecdsa"
+	"crypto/elliptic"
 	"errors"
 	"sort"
 	"sync"
@@ -142,4 +144,97 @@ func OrderBad(m map[string]bool) []string {
 	}
 	sort.Slice(out, func(i, j int) bool { return len(out[i]) < len(out[j]) })
 	return out
+}
+
+// R-FRESH
+type rec struct{ b []byte }
+
+func FreshOK(in [][]byte) []rec {
+	var out []rec
+	for _, x := range in {
+		buf := make([]byte, 0, 8)
+		buf = append(buf, x...)
+		out = append(out, rec{buf})
+	}
+	return out
+}
+
+func FreshBad(in [][]byte) []rec {
+	var out []rec
+	buf := make([]byte, 0, 8)
+	for _, x := range in {
+		buf = append(buf[:0], x...)
+		out = append(out, rec{buf})
+	}
+	return out
+}
+
+// R-PURE
+func PureOK(b []byte) int {
+	n := 0
+	for _, x := range b {
+		n += int(x)
+	}
+	return n
+}
+
+func PureBad(b []byte) int {
+	if len(b) > 0 {
+		b[0] = 0
+	}
+	return len(b)
+}
+
+// R-CHARSET
+func SetWide(b byte) bool {
+	return 'a' <= b && b <= 'z' || '0' <= b && b <= '9' || b == '-' || b == '\''
+}
+
+func SetNarrow(b byte, dash bool) bool {
+	return 'a' <= b && b <= 'z' || (dash && b == '-')
+}
+
+func SetOther(b byte) bool {
+	return 'a' <= b && b <= 'z' || b == '_'
+}
+
+// R-INIT
+func AccBad(out *uint64, n []byte) {
+	for i := 0; i < len(n); i++ {
+		*out <<= 8
+		*out |= uint64(n[i])
+	}
+}
+
+func AccOK(out *uint64, n []byte) {
+	*out = 0
+	for i := 0; i < len(n); i++ {
+		*out <<= 8
+		*out |= uint64(n[i])
+	}
+}
+
+// R-CURVES
+func CurvesOK(k *ecdsa.PublicKey) (int, error) {
+	switch k.Curve {
+	case elliptic.P224(), elliptic.P256():
+		return 256, nil
+	case elliptic.P384():
+		return 384, nil
+	case elliptic.P521():
+		return 512, nil
+	}
+	return 0, errors.New("unknown curve")
+}
+
+func CurvesBad(k *ecdsa.PublicKey) (int, error) {
+	switch size := k.Curve.Params().BitSize; {
+	case size <= 256:
+		return 256, nil
+	case size <= 384:
+		return 384, nil
+	case size <= 512:
+		return 512, nil
+	}
+	return 0, errors.New("unknown curve")
 }
